@@ -681,6 +681,27 @@ func ParseFile(path string, pkgPath string) (*File, error) {
 					cur.DynCalls = map[string]string{}
 				}
 				cur.DynCalls[parts[0]] = parts[1]
+			case "census":
+				r := strings.TrimSpace(rest)
+				c := &Census{Pos: ln.pos, Text: r}
+				if strings.HasPrefix(r, "[") {
+					if i := strings.Index(r, "]"); i > 0 {
+						c.Tag = r[1:i]
+						r = strings.TrimSpace(r[i+1:])
+					}
+				}
+				i := strings.Index(r, " written only by ")
+				if i < 0 {
+					return nil, fail(fmt.Errorf("census [tag] fields written only by functions"))
+				}
+				for _, f := range strings.Split(r[:i], ",") {
+					c.Fields = append(c.Fields, strings.TrimSpace(f))
+				}
+				for _, f := range strings.Split(r[i+17:], ",") {
+					c.Writers = append(c.Writers, strings.TrimSpace(f))
+				}
+				cur.Census = append(cur.Census, c)
+				curCS = nil
 			case "monitor":
 				gi := strings.Index(rest, " guards ")
 				ii := strings.Index(rest, " invariant ")
@@ -710,7 +731,16 @@ func ParseFile(path string, pkgPath string) (*File, error) {
 				for _, c := range strings.Split(rest[:i], ",") {
 					re.Callees = append(re.Callees, strings.TrimSpace(c))
 				}
-				es, err := parseExprList(rest[i+10:])
+				mods := rest[i+10:]
+				if k := strings.Index(mods, " keeping "); k >= 0 {
+					cl, err := parseClause(mods[k+9:], ln.pos)
+					if err != nil {
+						return nil, fail(err)
+					}
+					re.Keeping = cl
+					mods = mods[:k]
+				}
+				es, err := parseExprList(mods)
 				if err != nil {
 					return nil, fail(err)
 				}
@@ -848,7 +878,7 @@ var keywords = map[string]bool{
 	"spec": true, "macro": true, "footprint": true, "private": true, "ghost": true, "axiom": true, "lemma": true, "event": true, "func": true,
 	"requires": true, "ensures": true, "modifies": true, "pure": true, "noeffect": true, "trusted": true,
 	"let": true, "loop": true, "callsite": true, "assert": true, "assume": true, "cutafter": true, "invariant": true, "typeinv": true, "import": true, "package": true,
-	"noinline": true, "inline": true, "props": true, "fresh": true, "opt": true, "stablegetters": true, "represents": true, "dyncall": true, "silent": true, "assumes": true, "reenter": true, "monitor": true,
+	"noinline": true, "inline": true, "props": true, "fresh": true, "opt": true, "stablegetters": true, "represents": true, "dyncall": true, "silent": true, "assumes": true, "reenter": true, "monitor": true, "census": true,
 }
 
 func firstWord(s string) string {
